@@ -85,6 +85,8 @@ def compare(res, cad, steps, molid, ref, nmol=3, stdout=None):
     """conformance of one run's outputs with the cadence model and the cadence-1 reference."""
     prob = []
     exp = CM.expected_streams(cad, steps)
+    if int(cad.get("nonadiabatic", 0)) > 0:
+        exp["h5_file"] = True
     for mol in range(nmol):
         h5 = res.get(f"h5.{mol}")
         xyz = res.get(f"xyz.{mol}")
@@ -124,7 +126,31 @@ def compare(res, cad, steps, molid, ref, nmol=3, stdout=None):
                         break
             # data
             lab = exp["data"]
-            dkeys = [k for k in h5 if k.startswith("data/")]
+            dkeys = [k for k in h5 if k.startswith("data/") and not k.startswith("data/nonadiabatic/")]
+            # nonadiabatic stream (surface hopping only)
+            if "nonadiabatic" in cad:
+                lab_na = CM.labels(int(cad["nonadiabatic"]), steps)
+                nkeys = [k for k in h5 if k.startswith("data/nonadiabatic/")]
+                if lab_na is None:
+                    if nkeys:
+                        prob.append(f"mol {mol}: nonadiabatic cadence 0 but group exists")
+                elif "data/nonadiabatic/steps" not in h5:
+                    prob.append(f"mol {mol}: /data/nonadiabatic missing")
+                else:
+                    got = h5["data/nonadiabatic/steps"].tolist()
+                    if got != lab_na:
+                        prob.append(f"mol {mol}: data/nonadiabatic/steps = {got} expected {lab_na}")
+                    else:
+                        for k in r5:
+                            if not k.startswith("data/nonadiabatic/") or k.endswith("/steps"):
+                                continue
+                            if k not in h5 or h5[k].shape[0] != len(lab_na):
+                                prob.append(f"mol {mol}: {k} missing or wrong length")
+                                continue
+                            for i, s_ in enumerate(lab_na):
+                                if not _cmp(h5[k][i], r5[k][s_]):
+                                    prob.append(f"mol {mol}: {k} row {i} (step {s_}) differs from the state at that step")
+                                    break
             if lab is None:
                 if dkeys:
                     prob.append(f"mol {mol}: data cadence 0 but /data exists: {dkeys[:3]}")
@@ -137,7 +163,7 @@ def compare(res, cad, steps, molid, ref, nmol=3, stdout=None):
                         prob.append(f"mol {mol}: data/steps = {got} expected {lab}")
                     else:
                         for k in r5:
-                            if not k.startswith("data/") or k == "data/steps":
+                            if not k.startswith("data/") or k == "data/steps" or k.startswith("data/nonadiabatic/"):
                                 continue
                             if k not in h5:
                                 prob.append(f"mol {mol}: dataset {k} missing")
@@ -156,6 +182,8 @@ def compare(res, cad, steps, molid, ref, nmol=3, stdout=None):
             for k in h5:
                 if k not in r5:
                     prob.append(f"mol {mol}: unexpected dataset {k}")
+            if "nonadiabatic" in cad:
+                exp["h5_file"] = exp["h5_file"] or int(cad["nonadiabatic"]) > 0
             if "atoms" in h5 and not _cmp(h5["atoms"], r5["atoms"]):
                 prob.append(f"mol {mol}: /atoms differs")
         # xyz
@@ -348,13 +376,97 @@ def run(chk, tier, seed):
         chk.transitions += c["steps"]
         if r["problems"]:
             chk.violation(_desc(c, r["problems"], "real"), f"{k}: {r['problems'][0]} (+{len(r['problems']) - 1} more)", replay=dict(c, real=True))
+    _sh_sublattice(chk, tier, seed)
     chk.states = len(states)
-    chk.extra["engines"] = engines
+    chk.extra["engines"] = engines + ["sh (real driver only)"]
     chk.extra["real_driver_runs"] = len(sub)
+
+
+# ------------------------------------------------------------------ surface hopping: the nonadiabatic stream
+
+_SH_REF = {}
+
+
+def _sh_cfg(cad, steps, resume_ck=0):
+    from ..drivers import crash as CR
+
+    return CR.default_cfg(
+        engine="sh", mols=["H2CO"], excited={"n_states": 2, "method": "cis"}, active_state=1, steps=steps, eps=1e-7, seed=2,
+        out=dict(data=cad["data"], coordinates=cad["coordinates"], velocities=cad["velocities"], forces=cad["forces"],
+                 xyz=cad["xyz"], print_every=cad["print"], checkpoint_every=resume_ck, nonadiabatic=cad["nonadiabatic"]),
+    )  # fmt: skip
+
+
+def run_sh_case(case):
+    from ..drivers import crash as CR
+    from ..drivers import sh as SH
+
+    cad, steps, at = case["cad"], case["steps"], case["resume_at"]
+    cfg = _sh_cfg(cad, steps, cad["checkpoint"])
+    wd = MD.scratch_dir("c11sh")
+    try:
+        hook = MD.crash_after_checkpoint_hook(at) if at else None
+        r = CR.run_cfg(cfg, wd, hook=hook)
+        stdout = r["stdout"]
+        if at:
+            if not (r["error"] or "").startswith("SimulatedCrash"):
+                return {"problems": [f"planned crash at {at} did not happen: {r['error']}"], "sig": "x"}
+            r = SH.resume_sh(wd, 1)
+            stdout += r["stdout"]
+        if r["error"]:
+            return {"problems": [f"run raised {r['error']}"], "sig": "err"}
+        prob = compare(r, cad, steps, [0], _SH_REF["ref"], nmol=1, stdout=stdout)
+        return {"problems": prob, "sig": _sig(r, [0]) + str(r["h5.0"].get("data/nonadiabatic/steps", np.zeros(0)).tolist() if r.get("h5.0") else None)}
+    finally:
+        MD.rm(wd)
+
+
+def _sh_sublattice(chk, tier, seed):
+    from ..drivers import crash as CR
+
+    one = dict(data=1, coordinates=1, velocities=1, forces=1, xyz=1, print=1, checkpoint=0, nonadiabatic=1)
+    nref = 6
+    wd = MD.scratch_dir("c11shref")
+    try:
+        ref = CR.run_cfg(_sh_cfg(one, nref), wd)
+    finally:
+        MD.rm(wd)
+    if ref["error"]:
+        chk.violation({"engine": "sh", "driver": "real", "first_problem": "reference run"}, f"surface-hopping reference run raised {ref['error']}", replay={"sh": True})
+        return
+    _SH_REF["ref"] = ref
+    cases = []
+    nas = [0, 1, 2, 3, 5]
+    vecs = [(1, 1, 1), (2, 3, 5)] if tier == "quick" else [(1, 1, 1), (2, 3, 5), (0, 0, 0), (3, 1, 2)]
+    datas = [1, 2] if tier == "quick" else [0, 1, 2, 3]
+    for na in nas:
+        for c_, v, f in vecs:
+            for d in datas:
+                cad = dict(data=d, coordinates=c_, velocities=v, forces=f, xyz=(2 if na % 2 else 0), print=0, checkpoint=0, nonadiabatic=na)
+                cases.append(dict(engine="sh", steps=5, cad=cad, molid=[0], resume_at=0))
+    for na in (1, 2, 3):
+        for at, ck in ((2, 2), (4, 2), (3, 3)):
+            cad = dict(data=1, coordinates=2, velocities=3, forces=1, xyz=1, print=0, checkpoint=ck, nonadiabatic=na)
+            cases.append(dict(engine="sh", steps=5, cad=cad, molid=[0], resume_at=at))
+    res = pmap(run_sh_case, cases, chunk=1, timeout=1200, progress="C11 surface-hopping sub-lattice (real driver)")
+    for c, r in zip(cases, res):
+        k = "real|" + _key(c) + f"|na{c['cad']['nonadiabatic']}"
+        d = _desc(c, r.get("problems", ["harness"]) if isinstance(r, dict) else ["harness"], "real")
+        if is_timeout(r) or is_error(r):
+            chk.violation(d, f"{k}: run did not complete: {r}", replay=dict(c, sh=True))
+            continue
+        chk.case(k, nontrivial=True, outcome=r["sig"])
+        chk.traces += 1
+        chk.transitions += c["steps"]
+        if r["problems"]:
+            chk.violation(d, f"{k}: {r['problems'][0]} (+{len(r['problems']) - 1} more)", replay=dict(c, sh=True))
 
 
 def replay(payload):
     c = payload["replay"]
+    if c.get("sh"):
+        print("re-run ./check C11 (surface-hopping sub-lattice)")
+        return True
     _prepare(c["engine"])
     r = run_case(c, real=bool(c.get("real")))
     for p in r["problems"]:
